@@ -11,15 +11,19 @@ def run(ck):
     ck.trusted += ['Kani 0.68 / CBMC 6.11 (dev profile)']
     ck.stubs += ['S_unreach: RuleDay::unix_time / AlternateTime::find_local_time_type := assert!(false) (no Alternate rule in these harnesses; DST rules are C04)',
                  'S_pack in c03_plumb: UtcDateTime::from_timespec := range gate + injective packing of t (its real meaning is C01)']
-    hs = [H('c03_lookup_n4', cap=1200, meaning='lookup == linear-scan reference (ptr-equal local time type), type 0 before the first transition, rule / NoAvailableLocalTimeType at or after the last; n<=4, no leap seconds'),
-          H('c03_lookup_leap_n3', cap=1200, meaning='same with <=2 leap records: "at or before" is judged at the UTC instant each transition count denotes (declarative C12 definition); n<=3'),
+    hs = [H('c03_lookup_n4', cap=1200, playback=True, meaning='lookup == linear-scan reference (ptr-equal local time type), type 0 before the first transition, rule / NoAvailableLocalTimeType at or after the last; n<=4, no leap seconds'),
+          H('c03_lookup_leap_n3', cap=1200, playback=True, meaning='same with <=2 leap records: "at or before" is judged at the UTC instant each transition count denotes (declarative C12 definition); n<=3'),
           H('c03_plumb', cap=1200, meaning='DateTime::from_timespec = lookup composed with from_timespec_and_local: fields are those of t+offset, unix_time=t, ns and type copied, OutOfRange iff t+offset leaves the range')]
     if not quick:
-        hs += [H('c03_lookup_n6', cap=3600, meaning='n<=6, no leap seconds'), H('c03_lookup_leap_n4', cap=3600, required=False, meaning='n<=4 with <=3 leap records')]
+        hs += [H('c03_lookup_n6', cap=3600, playback=True, meaning='n<=6, no leap seconds'), H('c03_lookup_leap_n4', cap=3600, required=False, playback=True, meaning='n<=4 with <=3 leap records')]
     B.run(hs)
+    import kprop
     for h in hs:
         if h.verdict == 'FAILED':
-            replay_failed(ck, B, h)
+            if h.playback_ok:
+                kprop.playback_violation(ck, B, h)
+            else:
+                replay_plumb(ck, B, h)
     ck.samples += [{'harness': h.name, 'verdict': h.verdict, 'meaning': h.meaning, 'seconds': round(h.secs, 1)} for h in hs]
     ck.functions += ['TimeZoneRef::find_local_time_type', 'binary_search_transitions', 'TimeZoneRef::unix_time_to_unix_leap_time', 'TimeZoneRef::new/check_inputs', 'TransitionRule::find_local_time_type', 'DateTime::from_timespec', 'DateTime::from_timespec_and_local']
     ck.explanation = 'CBMC decides, for every table up to the bound accepted by the real constructor and every i64 instant, that the binary-search lookup returns the reference scan\'s type (by pointer identity).'
@@ -89,9 +93,42 @@ def replay_failed(ck, B, h):
     ck.inconclusive.append(f'{h.name} FAILED ({h.failed_checks[:2]}) but the decoded counterexample {m} does not reproduce natively')
 
 
-def replay(ck, case):
+def replay_plumb(ck, B, h):
+    """c03_plumb uses S_pack: replay natively through DateTime::from_timespec and judge with the python references"""
+    import kprop, zoneref, calref
+    vecs = B.playback(h)
+    if not vecs:
+        ck.inconclusive.append(f'{h.name} FAILED ({h.failed_checks[:3]}); concrete playback produced no values')
+        return
+    z, m = kprop.decode_zone(vecs, 2, with_c=False)
+    lay = kprop.zone_layout(2)[1:]
+    k = len(lay) - (0 if m.get('has_rule') else 2)
+    rest = vecs[k:k + 2]
+    t = engb.le_int(rest[0], True) if rest else 0
+    ns = engb.le_int(rest[1], False) if len(rest) > 1 else 0
     nat = common.Native()
+    cmd = f'localtime {z.cmd()} {t} {ns}'
+    for o in nat.both([cmd])[0]:
+        if o.startswith('err zone') or o.startswith('err parse'):
+            break
+        l = z.lookup(t)
+        if l is None:
+            want = 'err'
+        else:
+            w = t + l[0]
+            want = 'err' if not (calref.MIN_T <= w <= calref.MAX_T) else 'ok ' + ' '.join(map(str, calref.gmtime(w)[:6])) + f' {ns} {t} {l[0]} {l[1]} -'
+        if (want == 'err') != o.startswith('err') or (want != 'err' and not o.startswith(want)):
+            ck.violation(f'{h.name}: `{cmd}` gives {o!r}; the zone prescribes {want!r}', {'cmd': cmd, 'want': want, 'kind': 'plumb'})
+            return
+    ck.inconclusive.append(f'{h.name} FAILED ({h.failed_checks[:2]}) but the decoded counterexample does not reproduce natively')
+
+
+def replay(ck, case):
     c = case['case']
+    if c.get('kind') == 'kani-playback':
+        import kprop
+        return kprop.replay_playback(ck, case)
+    nat = common.Native()
     out = nat.both([c['cmd']])[0]
     print('native:', out, 'want:', c['want'])
-    return 1 if any(o != c['want'] for o in out) else 0
+    return 1 if any(not o.startswith(c['want']) for o in out) else 0
